@@ -8,7 +8,9 @@
   OBLIGATIONS
   inline_eq_runtime_partial
   same_termination
-  -/
+  eager_syntax_witness
+  match_range_witness
+-/
 import Genshi.Lemmas.InclPrep
 namespace Genshi.Props.C11
 open Genshi.Incl
@@ -66,5 +68,81 @@ theorem same_termination (T : List Name) (files : Files) (hH : inH T files = tru
   constructor <;> intro h fuel
   · rw [← inline_eq_runtime_partial T files hH]; exact h fuel
   · rw [inline_eq_runtime_partial T files hH]; exact h fuel
+
+/-! ## the full statement is false: witnesses (findings/C11.json) -/
+
+section witnesses
+def nA : Name := ['a', '.', 'h', 't', 'm', 'l']
+def nB : Name := ['b', '.', 'h', 't', 'm', 'l']
+def nBad : Name := ['b', 'a', 'd', '.', 'h', 't', 'm', 'l']
+def nNope : Name := ['n', 'o', 'p', 'e', '.', 'h', 't', 'm', 'l']
+
+/-- a.html: `<d><py:if test="s0"><xi:include href="bad.html"/></py:if></d>`, bad.html is not
+well-formed, `s0 = ''`: inline mode raises TemplateSyntaxError while preparing, run-time mode
+never reaches the include (finding C11-eager-syntax) -/
+def wEager : Files :=
+  [[(nA, ⟨.markup, some [.elem ['d'] [.cond (.var ['s', '0']) [.include (.static nBad) .markup false [] nA]]]⟩),
+    (nBad, ⟨.markup, none⟩)]]
+
+theorem eager_syntax_witness :
+    renderInline wEager nA .markup [(['s', '0'], .str [])] 5 = .err .syntaxErr ∧
+    renderRuntime wEager nA .markup [(['s', '0'], .str [])] 5 = .ok [.start ['d'], .stop ['d']] := by
+  decide +kernel
+
+/-- a.html: `<d><py:match path="x">X</py:match><py:match path="q"><xi:include href="nope.html"/></py:match>
+<x><xi:include href="b.html"/></x></d>`, b.html: `<e><q/></e>`.  The content of the matched `<x>`
+is processed under the match templates up to the one for `x`; inlined, b.html's `<q/>` inherits
+that restriction, while the run-time include runs b.html through its own match filter, which
+applies the template for `q` (finding C11-match-range) -/
+def wRange : Files :=
+  [[(nA, ⟨.markup, some [.elem ['d'] [
+        .matchT ['x'] [.text ['X']],
+        .matchT ['q'] [.include (.static nNope) .markup false [] nA],
+        .elem ['x'] [.include (.static nB) .markup false [] nA]]]⟩),
+    (nB, ⟨.markup, some [.elem ['e'] [.elem ['q'] []]]⟩)]]
+
+theorem match_range_witness :
+    renderInline wRange nA .markup [] 5 = .ok [.start ['d'], .text ['X'], .stop ['d']] ∧
+    renderRuntime wRange nA .markup [] 5 = .err .notFound := by
+  decide +kernel
+
+example : inH (matchTags wEager) wEager = false := by decide +kernel
+example : inH (matchTags wRange) wRange = false := by decide +kernel
+end witnesses
+
+/-! ## non-vacuity: the hypothesis holds on a file set that exercises every construct -/
+
+section nonvacuous
+def nSubC : Name := ['s', 'u', 'b', '/', 'c', '.', 'h', 't', 'm', 'l']
+def nT : Name := ['t', '.', 't', 'x', 't']
+
+/-- a.html includes sub/c.html (which registers a macro and a match template and includes
+../a.html back under a loop over the shrinking tree `t0`), calls the macro, uses the match
+template, includes a missing file with fallback, a text template, and an expression-valued href -/
+def exFiles : Files :=
+  [[(nA, ⟨.markup, some [.elem ['d'] [
+        .include (.static nSubC) .markup false [] nA,
+        .call ['m', '0'],
+        .elem ['x'] [.text ['g', 'o', 'n', 'e']],
+        .include (.static nNope) .markup true [.text ['F'], .var ['s', '0']] nA,
+        .include (.static nT) .text false [] nA,
+        .include (.dyn [.var ['h', '0']]) .markup true [] nA]]⟩),
+    (nSubC, ⟨.markup, some [.elem ['e'] [
+        .defn ['m', '0'] [.text ['M'], .var ['s', '0']],
+        .matchT ['x'] [.text ['X']],
+        .loop ['t', '0'] ['t', '0'] [.include (.static ['.', '.', '/', 'a', '.', 'h', 't', 'm', 'l']) .markup false [] nSubC]]]⟩),
+    (nT, ⟨.text, some [.text ['T'], .include (.static nNope) .text true [] nT]⟩)]]
+
+def exData : List (Name × Value) :=
+  [(['s', '0'], .str ['v']), (['t', '0'], .list [.list []]), (['h', '0'], .str nB)]
+
+example : inH (matchTags exFiles) exFiles = true := by decide +kernel
+
+-- both modes, same events; the recursion through sub/c.html → ../a.html is decided by the data
+example : renderInline exFiles nA .markup exData 9 = renderRuntime exFiles nA .markup exData 9 := by decide +kernel
+example : (match renderRuntime exFiles nA .markup exData 9 with | .ok evs => evs.length | _ => 0) = 20 := by decide +kernel
+-- not enough fuel for the two nested template entries: both modes give up
+example : renderInline exFiles nA .markup exData 2 = .fuel ∧ renderRuntime exFiles nA .markup exData 2 = .fuel := by decide +kernel
+end nonvacuous
 
 end Genshi.Props.C11
